@@ -206,6 +206,7 @@ fn check_frag(case: &Case, obs: &mut Obs) -> Verdict {
     mark("wrap_first_fit");
     let a = textwrap::wrap_algorithms::wrap_first_fit(frags, lws);
     obs.calls += 1;
+    #[allow(unused_assignments)]
     let mut err = false;
     #[cfg(feature = "smawk")]
     {
